@@ -67,9 +67,12 @@ def gen_step(rng, n, mutable):
         st['key'] = rng.choice([rpos(rng, n), rslice(rng, n)])
     elif op == 'replace': st.update(old=rand_bits(rng, rng.choice([1, 2, 3])), new=small(), count=rng.choice([None, 1]))
     elif op == 'imul': st['n'] = rng.choice([0, 1, 2, 3, -1])
-    elif op == 'keep': st.update(m=rng.choice(['reverse', 'rol', 'ror', 'set', 'invert', 'ilshift', 'irshift', 'byteswap', 'ixor']), n=rng.choice([0, 1, 3]))
+    elif op == 'keep': st.update(m=rng.choice(['reverse', 'rol', 'ror', 'set', 'invert', 'ilshift', 'irshift', 'byteswap', 'ixor']), n=rng.choice([0, 1, 3, 64, 200]))
     elif op == 'propset': st.update(name=rng.choice(['uint', 'int', 'hex', 'bin', 'uint8', 'bytes', 'bool']), v=rng.choice([0, 1, 3, 200]))
-    elif op == 'derive': st['how'] = rng.choice(['copy', 'copycopy', 'slice', 'add', 'and', 'andself', 'orself', 'xor', 'invert', 'mul', 'lshift', 'readbits', 'cut', 'getitem', 'constructor'])
+    if mutable and op in ('append', 'iadd', 'prepend', 'insert', 'overwrite', 'replace') and rng.random() < 0.12:
+        st['selfarg'] = rng.choice(['old', 'new']) if op == 'replace' else 'bs'        # the stream itself is passed as this operand
+    if op == 'setitem' and 'bits' in st.get('val', {}) and rng.random() < 0.1: st['selfarg'] = 'val'
+    if op == 'derive': st['how'] = rng.choice(['copy', 'copycopy', 'slice', 'add', 'and', 'andself', 'orself', 'xor', 'invert', 'mul', 'lshift', 'readbits', 'cut', 'getitem', 'constructor'])
     return st
 
 def gen_cases(rng, tier):
@@ -120,6 +123,18 @@ def apply_impl(s, st):
     from bitstring import Bits
     op = st['op']
     B = lambda x: Bits(bin=x)
+    if st.get('selfarg'):
+        sa = st['selfarg']
+        if op in ('append', 'iadd', 'prepend', 'insert', 'overwrite'):
+            if op == 'append': return s.append(s)
+            if op == 'iadd': s += s; return None
+            if op == 'prepend': return s.prepend(s)
+            if op == 'insert': return s.insert(s) if st['pos'] is None else s.insert(s, st['pos'])
+            if op == 'overwrite': return s.overwrite(s) if st['pos'] is None else s.overwrite(s, st['pos'])
+        if op == 'replace': return s.replace(s if sa == 'old' else B(st['old']), s if sa == 'new' else B(st['new']), count=st['count'])
+        if op == 'setitem':
+            key = slice(*st['key']) if isinstance(st['key'], list) else st['key']
+            s[key] = s; return None
     if op == 'read': return canon_val(st['tok'], s.read(fmt_of(st['tok'])))
     if op == 'peek': return canon_val(st['tok'], s.peek(fmt_of(st['tok'])))
     if op in ('readlist', 'peeklist'):
@@ -260,8 +275,18 @@ def ref_readlist(d, pos, toks):
         if v != ['none']: vals.append(v)
     return vals, pos
 
+def resolve_self(st, d):
+    """the step with the stream-itself operand replaced by the content it has when the call is made"""
+    sa = st.get('selfarg')
+    if not sa: return st
+    st = dict(st)
+    if sa == 'val': st['val'] = {'bits': d}
+    else: st[sa] = d
+    return st
+
 def ref_step(cls, d, pos, st):
     """-> (content, pos, result) ; result is ('ok', value) or ('err', set of acceptable kinds) or ('any',)"""
+    st = resolve_self(st, d)
     op = st['op']
     ok = lambda v, d2=d, p2=pos: (d2, p2, ('ok', v))
     err = lambda *k: (d, pos, ('err', set(k)))
@@ -411,6 +436,8 @@ def cval(v):
 def cerr(r): return f"(Err {r[1] if r[1] in COQ_EXNS else 'AssertionError'})"
 
 def coq_step(cls, st, before, r, after):
+    same = cbool(st.get('selfarg') == 'bs')
+    st = resolve_self(st, before[0])
     op = st['op']
     S = f"(mkstream {cbits(before[0])} {cz(before[1])})"
     A = f"{cbits(after[0])} {cz(after[1])}"
@@ -438,7 +465,7 @@ def coq_step(cls, st, before, r, after):
     if op in ('append', 'iadd'): return f"chk unit_eqb (st_append {S} {cbits(st['bs'])}) {A} {unit}"
     if op == 'prepend': return f"chk unit_eqb (st_prepend {S} {cbits(st['bs'])}) {A} {unit}"
     if op == 'insert': return f"chk unit_eqb (st_insert {S} {cbits(st['bs'])} {cob(st['pos'])}) {A} {unit}"
-    if op == 'overwrite': return f"chk unit_eqb (st_overwrite {S} false {cbits(st['bs'])} {cob(st['pos'])}) {A} {unit}"
+    if op == 'overwrite': return f"chk unit_eqb (st_overwrite {S} {same} {cbits(st['bs'])} {cob(st['pos'])}) {A} {unit}"
     if op == 'setitem':
         k, v = st['key'], st['val']
         V = f"(VBits {cbits(v['bits'])})" if 'bits' in v else f"(VInt {cz(v['int'])})"
